@@ -6,7 +6,7 @@ import numpy as np
 from . import common, cons, hand, hist, place, universe, xt
 
 PID = "C03"
-FORMS = ["py", "py-args", "nd", "ndF", "ndS", "cap", "xobj-other", "xobj-ctx", "xobj-nested", "xobj-nested-lastslack", "xobj-slack", "ref-same", "ref-foreign", "xobj-view", "xobj-nested-view", "xobj-capslack", "xobj-twin"] + cons.LEN
+FORMS = ["py", "py-args", "nd", "ndF", "ndS", "ndD", "cap", "xobj-other", "xobj-ctx", "xobj-nested", "xobj-nested-lastslack", "xobj-slack", "ref-same", "ref-foreign", "xobj-view", "xobj-nested-view", "xobj-capslack", "xobj-twin"] + cons.LEN
 PL = ["dirtyhole", "dirtyhole2", "hole", "explicit", "explicit-i8", "explicit-al16", "al16-hole", "ba-hole", "grown", "al64"]
 
 
@@ -271,6 +271,8 @@ def places_for(tier):
             return ["dirtybig", "dirtybig2"]
         if form in ("ref-same", "ref-foreign"):
             return ["cap0"]
+        if form in ("nd", "ndD"):  # NumPy sources (same and another dtype width) also into a hole of a BufferByteArray with live neighbours
+            return ["dirtyhole", "dirtyhole2", "ba-hole"]
         return ["dirtyhole", "dirtyhole2"]
 
     return f
